@@ -15,7 +15,7 @@ import (
 // C16 (a) — the legacy channel emitter: ordered, lossless, once each, however slowly the subscriber reads.
 
 type StepC16 struct {
-	Kind string `json:"kind"` // emit | read | hold | release
+	Kind string `json:"kind"` // emit | read | hold | release | fill (emit until exactly 17+n events are unread: channel full, one in the drainer's hand, n queued)
 	N    int    `json:"n,omitempty"`
 }
 
@@ -35,6 +35,15 @@ func genC16(rt *rapid.T) CaseC16 {
 			st.N = rapid.OneOf(rapid.IntRange(1, 3), rapid.IntRange(1, 3), rapid.IntRange(10, 30)).Draw(rt, "n")
 		}
 		c.Steps = append(c.Steps, st)
+	}
+	if rapid.IntRange(0, 3).Draw(rt, "shortBacklog") == 0 {
+		// the drainer is parked with an event taken from a short backlog while the reader makes room, then more is emitted
+		c.Steps = append(c.Steps,
+			StepC16{Kind: "fill", N: rapid.IntRange(1, 3).Draw(rt, "backlog")},
+			StepC16{Kind: "hold"},
+			StepC16{Kind: "read", N: rapid.IntRange(1, 5).Draw(rt, "room")},
+			StepC16{Kind: "emit", N: rapid.IntRange(1, 3).Draw(rt, "late")},
+			StepC16{Kind: "release"})
 	}
 	return c
 }
@@ -108,12 +117,22 @@ func execC16(c CaseC16) *Outcome {
 			}
 			// let the emitter's goroutines move what they can
 			time.Sleep(300 * time.Microsecond)
+		case "fill":
+			for emitted-len(got) < 17+st.N {
+				em.Emit(ctx, emitted)
+				emitted++
+			}
+			if emitted-len(got) > 17 {
+				overflowed = true
+			}
+			time.Sleep(300 * time.Microsecond)
 		case "read":
 			for i := 0; i < st.N; i++ {
 				if !readOne(3 * time.Millisecond) {
 					break
 				}
 			}
+			time.Sleep(200 * time.Microsecond)
 		case "hold":
 			mu.Lock()
 			if gate == nil {
